@@ -1,11 +1,26 @@
 """What MANIFEST.json claims, per property."""
-HOOK_COMMITS = ["77b2c42", "6128e10", "5f416f7", "71aa134", "8a2b985", "97ca607", "00b31e7", "29278f7", "85b0f09", "9dbd401"]
-FIX_COMMITS = ["5da2d24", "9b55744", "1ceb643", "2d49340", "9d87992", "737054a", "6331ab3", "02d90a3", "55099e0", "525f2ed", "54287dc", "82ec18b", "6946a78", "98af13c"]
+HOOK_COMMITS = ["77b2c42", "6128e10", "5f416f7", "71aa134", "8a2b985", "97ca607", "00b31e7", "29278f7", "85b0f09", "9dbd401", "f1dc223"]
+FIX_COMMITS = ["5da2d24", "9b55744", "1ceb643", "2d49340", "9d87992", "737054a", "6331ab3", "02d90a3", "55099e0", "525f2ed", "54287dc", "82ec18b", "6946a78", "98af13c", "7d6d443", "c8fc19d", "fe16054"]
 NOTES = ("Every check: TLC model-checks the module's design on small constants, then binds it to /repo's current working "
          "tree (rebuilt on every run with -tags verif). Exit 2 = infrastructure problem, never a verdict.")
 NOT_APPLICABLE = {}
-SUSPENDED = {"C17": "temporarily unclaimed: FzfBind is being updated to mirror the parseActionList fix 6946a78 (stricter rejection)"}
+SUSPENDED = {}
 CHECKS = {
+    "C11": {
+        "text": "FzfAnsi.tla holds (A) the stripping scanner as an explicit state machine equal to the documented regular expression "
+                "(CSI, OSC, two-character ESC sequences, SI/SO, x BS) and (B) an independent ECMA-48 SGR / OSC-8 interpreter "
+                "(reset, attributes, 8/16/256/24-bit colours, carried-over state, line background) giving per-character "
+                "attributes and well-formed spans. TLC checks that control-free strings are fixed points, a sequence never swallows "
+                "following text, spans are within the text, ordered and disjoint. E: all byte strings <=4/5 over the control "
+                "alphabet and grammar-generated interleavings with every carried state class are replayed on extractColor (text, "
+                "offsets with abstract attributes, final state) and through `fzf --ansi -f ''`; J: long random grammar strings and "
+                "arbitrary byte strings judged by Judge_Ansi.",
+        "design_ref": "DESIGN.md §6 C11",
+        "note": "Mixed ':'/';' parameter forms and truncated 38/48 sequences are outside the well-formed grammar (robustness and "
+                "span well-formedness only). The harness maps tui.Color / Attr bits to abstract attributes by a table printed into "
+                "each record. Trusted: TLC, that table.",
+        "technique": "TLA+ spec + TLC exhaustive MC; TLC-enumerated cases replayed on real code and binary; TLC-judged random records",
+    },
     "C20": {
         "text": "FzfPreview.tla models the previewer: UI actions, render loop refresh (try-send cancel on the unbuffered killChan, then "
                 "overwrite the one-slot previewBox), previewer pick/start/reap, reader/ticker display, watcher select / "
@@ -111,7 +126,9 @@ CHECKS = {
         "design_ref": "DESIGN.md §6 C17, §9 F4",
         "note": "Vocabulary of 20 valued options + flags; atoms chosen so no two concatenate into a name; arbitrary texts are opaque "
                 "to the spec and used only where validity does not depend on content; stdin never a tty; error text compared only "
-                "by source; totality over arbitrary bytes is monitored (panic check), not proven. Trusted: TLC, the Go projection "
+                "by source; totality over arbitrary bytes is monitored (panic check), not proven. Positional arbitration --tmux vs "
+                "--height (word position across all sources) and the --tmux value grammar are modelled; every curated value class "
+                "of every valued option is run once through the real binary with the no-panic assertion. Trusted: TLC, the Go projection "
                 "code, python's shell quoting of J inputs.",
         "technique": "TLA+ spec + TLC exhaustive MC; TLC-enumerated/simulated cases replayed on real code; TLC as judge of recorded real executions",
     },
